@@ -210,12 +210,171 @@ func c05Once(t *testing.T, s *sim.Scn, ks []int, o *sim.Outcome) (fired []bool) 
 	return fired
 }
 
+// c05DAOnce is the DA-driven member of the family (cfg src=1): every part of the chain lies on the DA
+// layer at a seeded height (header and data of a block at different heights, later blocks' headers
+// below earlier blocks' data), the follower's real RetrieveLoop scans it and the emitted events are
+// handed to the real SyncLoop in emission order. Crash point ks[0] cuts a durable write of this
+// scan-and-apply phase, ks[1] one of the phase after the restart; whatever was only in memory (queued
+// events, cached parts) is lost with the process. After the last restart the scan must bring the
+// follower to the proposer's height from the DA layer alone.
+func c05DAOnce(t *testing.T, s *sim.Scn, ks []int, o *sim.Outcome) (fired []bool) {
+	fired = make([]bool, len(ks))
+	p := sim.Bubble(t, func() {
+		start := time.Now()
+		w := sim.NewWorld(t, "c05", 1)
+		defer w.Close()
+		var spec []int64
+		for _, op := range s.Ops {
+			if op.K == "spec" {
+				spec = append(spec, op.A%10)
+			}
+		}
+		if len(spec) == 0 {
+			spec = []int64{1, 0}
+		}
+		blocks, _, err := buildChain(w, spec)
+		if err != nil {
+			o.Count("skipped:proposer-failed", 1)
+			return
+		}
+		f := w.AddNode(sim.NodeCfg{Name: "full"})
+		fw := &followerWorld{w: w, f: f, blocks: blocks, o: o, planted: map[string]bool{}, hDeliv: map[uint64]bool{}, dDeliv: map[uint64]bool{}, id: "C05"}
+		n := len(blocks)
+		lr := rand.New(rand.NewPCG(uint64(s.Cfg["order"]), 77))
+		span := uint64(2 + lr.IntN(2*n+2))
+		style := s.Cfg["order"] % 3 // 0 anywhere, 1 all headers low and data above, 2 header and data of a block adjacent
+		last := uint64(0)
+		for i, b := range blocks {
+			hh, dh := 1+lr.Uint64N(span), 1+lr.Uint64N(span)
+			switch style {
+			case 1:
+				hh, dh = 1+lr.Uint64N(2), 3+uint64(i)
+			case 2:
+				hh = 1 + uint64(i)
+				dh = hh + lr.Uint64N(2)
+			}
+			w.DA.Plant(hh, b.HBlob, "proposer")
+			if b.DBlob != nil {
+				w.DA.Plant(dh, b.DBlob, "proposer")
+				if dh > last {
+					last = dh
+				}
+			}
+			if hh > last {
+				last = hh
+			}
+		}
+		w.DA.SetCur(last + 2)
+		if err := f.StartNode(); err != nil {
+			o.Fail("C05/cannot-start", "", -1, err.Error(), "starts")
+			return
+		}
+		top := fw.top()
+		cut := ""
+		fail := func(oracle, sig string, step int, obs, exp string) {
+			o.Fail(oracle, sig, step, fmt.Sprintf("[DA-driven, crash points %v, cut %s] %s", ks, cut, obs), exp)
+		}
+		// one phase: scan and apply until the top is reached or two rounds bring nothing; reports a sync error
+		phase := func(armed bool) error {
+			idle := 0
+			for round := 0; round < 4*n+8 && idle < 2 && f.Height() < top; round++ {
+				hb := f.Height()
+				f.Retrieve()
+				if armed && f.Disk.CrashFired {
+					return nil
+				}
+				hq, dq := f.HeaderFIFO, f.DataFIFO
+				f.HeaderFIFO, f.DataFIFO = nil, nil
+				got := len(hq) + len(dq)
+				for len(hq)+len(dq) > 0 {
+					var err error
+					if len(dq) == 0 || (len(hq) > 0 && hq[0].DAHeight <= dq[0].DAHeight) {
+						err = f.DeliverHeader(hq[0])
+						hq = hq[1:]
+					} else {
+						err = f.DeliverData(dq[0])
+						dq = dq[1:]
+					}
+					if armed && f.Disk.CrashFired {
+						return nil
+					}
+					if err != nil {
+						return err
+					}
+				}
+				if got == 0 && f.Height() == hb {
+					idle++
+				} else {
+					idle = 0
+				}
+			}
+			return nil
+		}
+		for level := 0; level <= len(ks); level++ {
+			armed := level < len(ks)
+			if armed {
+				f.Disk.Arm(ks[level])
+			}
+			err := phase(armed)
+			crashed := false
+			if armed {
+				crashed = f.AfterActivity()
+			}
+			if err != nil && !crashed {
+				fail("C05/sync-halted", "C05/sync-halted/"+classifyErr(err.Error()), level, err.Error(), "genuine blocks apply")
+				return
+			}
+			if !crashed {
+				break
+			}
+			fired[level] = true
+			cut = f.Disk.CrashPrev + "|" + f.Disk.CrashLabel
+			if err := f.StartNode(); err != nil {
+				fail("C05/cannot-restart", "C05/cannot-restart/cut="+cut, level, err.Error(), "restarts after the crash")
+				return
+			}
+			fw.restarts++
+			if !fw.checkPrefix(level, "image after restart") {
+				return
+			}
+			if msg := w.CheckQuiescent(f.Peek()); msg != "" {
+				fail("C05/state-does-not-match-height", "C05/state-does-not-match-height/cut="+cut, level, "after restart: "+msg, "recorded state corresponds to exactly the recorded chain height")
+				return
+			}
+		}
+		if !f.Alive {
+			return
+		}
+		if h := f.Height(); h != top {
+			fail("C05/not-converged-after-crash", "C05/not-converged-after-crash/da-driven", n, fmt.Sprintf("every part of the chain is on the DA layer (heights 1..%d, follower's scan position %d) but after the restart the height stays %d, proposer's is %d", last, f.M.VerifDAHeight(), h, top), "the follower reaches the proposer's chain")
+			return
+		}
+		if !fw.checkPrefix(n, "final") {
+			return
+		}
+		if msg := w.CheckQuiescent(f.Peek()); msg != "" {
+			fail("C05/state-does-not-match-height", "", n, "final: "+msg, "state corresponds to the chain height")
+			return
+		}
+		o.SimTime += time.Since(start)
+		o.States = append(o.States, f.AbstractState()+"/da/"+cut)
+	})
+	if p != nil {
+		o.Fail("C05/panic", "", -1, fmt.Sprintf("[DA-driven, crash points %v] %v", ks, p), "no panic")
+	}
+	return fired
+}
+
 func c05Run(t *testing.T, s *sim.Scn) *sim.Outcome {
+	once := c05Once
+	if s.Cfg["src"] == 1 {
+		once = c05DAOnce
+	}
 	o := sim.NewOutcome()
 	images := 0
 	for k1 := 0; k1 < 64 && o.V == nil; k1++ {
 		sub := sim.NewOutcome()
-		fired := c05Once(t, s, []int{k1}, sub)
+		fired := once(t, s, []int{k1}, sub)
 		o.Absorb(sub)
 		images++
 		if !fired[0] {
@@ -227,7 +386,7 @@ func c05Run(t *testing.T, s *sim.Scn) *sim.Outcome {
 		}
 		for k2 := 0; k2 < 64 && o.V == nil; k2++ {
 			sub2 := sim.NewOutcome()
-			fired2 := c05Once(t, s, []int{k1, k2}, sub2)
+			fired2 := once(t, s, []int{k1, k2}, sub2)
 			o.Absorb(sub2)
 			images++
 			if len(fired2) < 2 || !fired2[1] {
@@ -248,6 +407,9 @@ func c05Gen(r *rand.Rand, tier string) *sim.Scn {
 		n = 2 + r.IntN(14)
 	}
 	s := &sim.Scn{Cfg: map[string]int64{"applied": r.Int64N(int64(n)), "batch": 1 + r.Int64N(3), "order": r.Int64N(1 << 30)}}
+	if r.IntN(3) == 0 {
+		s.Cfg["src"] = 1 // DA-driven member
+	}
 	pEmpty := r.IntN(60)
 	for i := 0; i < n; i++ {
 		v := int64(1 + r.IntN(3))
@@ -266,9 +428,9 @@ func TestC05(t *testing.T) {
 		ID:    "C05",
 		Level: "fault_enumeration",
 		Rule: "a case is a family: seeded chain (2-7 blocks quick, up to 15 thorough; empty/non-empty/identical tx lists), number of blocks applied before, number of blocks applied by the triggering event (1-3), delivery-order seed; every durable-write boundary of the triggering application is a crash point and, for each, every boundary of the seeded re-delivery phase is a nested crash point; " +
-			"each member is run from scratch. distinct = distinct family hash; non-trivial = at least 3 first-level and 3 nested crash points fired",
-		Assumptions: []string{"crash model: process death; completed datastore writes survive in order", "events are handed to the sync loop directly (DA scan and P2P polling are C02/C09's subject)"},
-		Components:  map[string]string{"block.Manager.SyncLoop / trySyncNextBlock": "real", "pkg/store": "real", "pkg/cache": "real", "proposer": "real aggregator", "datastore": "stub (SimDatastore)", "executor": "stub (SimExec)"},
+			"a third of the families are DA-driven instead: the whole chain lies on the simulated DA layer at seeded heights (header and data of a block apart, later headers below earlier data), the real RetrieveLoop and SyncLoop scan and apply it, crash points cut the durable writes of that phase, in-memory queues and caches die with the process, and the scan alone must bring the restarted node to the proposer's height; each member is run from scratch. distinct = distinct family hash; non-trivial = at least 3 first-level and 3 nested crash points fired",
+		Assumptions: []string{"crash model: process death; completed datastore writes survive in order", "in the event-driven families events are handed to the sync loop directly; in the DA-driven families they come from the real RetrieveLoop"},
+		Components:  map[string]string{"block.Manager.SyncLoop / trySyncNextBlock": "real", "block.Manager.RetrieveLoop (DA-driven families)": "real", "DA": "stub (SimDA)", "pkg/store": "real", "pkg/cache": "real", "proposer": "real aggregator", "datastore": "stub (SimDatastore)", "executor": "stub (SimExec)"},
 		Gen:         c05Gen,
 		Run:         c05Run,
 		CfgMin:      map[string]int64{"batch": 1},
